@@ -619,7 +619,11 @@ func raceRun(seed uint64, g, rounds int) (out string) {
 		}
 		progs := make([][]*opRec, g)
 		for k := range progs {
-			for i, n := 0, r.Range(1, 3); i < n; i++ {
+			most := 3 // at most 9 calls per round: the search for an order stays small even when it must fail
+			if g > 3 {
+				most = 2
+			}
+			for i, n := 0, r.Range(1, most); i < n; i++ {
 				progs[k] = append(progs[k], genRaceOp(r))
 			}
 		}
